@@ -38,6 +38,7 @@ Without(p) == [q \in Pids \ {p} |-> peers[q]]
 Tag(p, evs) == [j \in 1..Len(evs) |-> evs[j] @@ [pid |-> p]]
 HasDisc(evs) == \E j \in 1..Len(evs) : evs[j].e = "disc"
 
+FailK(fail) == IF fail THEN 1 ELSE 0
 NInit ==
   /\ peers = << >> /\ nextPid = 0
   /\ cnt = [created |-> 0, feeds |-> 0, calls |-> 0, ticks |-> 0, rewinds |-> 0, vit |-> 0]
@@ -52,7 +53,7 @@ ApplyPeer(p, r, remove) ==
 ConnectAt(a) ==
   /\ PidOf(a) = -1
   /\ LET p == FreeFrom(nextPid)
-         r == ConnectOp(Fresh, "T")
+         r == ConnectOp(Fresh, "T", 0)
      IN /\ peers' = Put(p, [addr |-> a, tf |-> FALSE, x |-> r.x])
         /\ nextPid' = p + 1
         /\ out' = [res |-> "ok", evs |-> <<>>, sends |-> [NoSends EXCEPT ![a] = r.outs], pid |-> p]
@@ -82,13 +83,14 @@ Alphabet(a) ==
              \cup {[k |-> "ctrl", c |-> c, tok |-> good, rt |-> "-", ack |-> (x.seq + 700) % 1024, r |-> (IF c = "Close" THEN 3 ELSE -1)]
                      : c \in {"KeepAlive", "Close"}}
 
-\* `bounded`: the creation budget of the exploration applies
-FeedWith(a, d, bounded) ==
+\* `bounded`: the creation budget of the exploration applies; `fail`: the send callback refuses the (first) datagram
+\* with which the peer's connection answers -- the events of the datagram are handed to the application all the same
+FeedWith(a, d, bounded, fail) ==
   LET p == PidOf(a) IN
-  /\ act' = [a |-> "feed", addr |-> a, d |-> d]
+  /\ act' = [a |-> "feed", addr |-> a, d |-> d, fail |-> fail]
   /\ IF d.k \in {"garbage", "unreadable"} THEN peers' = peers /\ out' = Quiet /\ UNCHANGED nextPid
      ELSE IF p # -1
-     THEN LET r == FeedOp(peers[p].x, d, "T") IN ApplyPeer(p, r, HasDisc(r.evs)) /\ UNCHANGED nextPid
+     THEN LET r == FeedOp(peers[p].x, d, "T", FailK(fail)) IN ApplyPeer(p, r, HasDisc(r.evs)) /\ UNCHANGED nextPid
      ELSE IF d.k = "connless"
      THEN /\ peers' = peers /\ UNCHANGED nextPid
           /\ out' = [Quiet EXCEPT !.evs = <<[e |-> "connless", id |-> d.id, sz |-> d.sz, pid |-> -1, addr |-> a]>>]
@@ -101,27 +103,29 @@ FeedWith(a, d, bounded) ==
           /\ peers' = peers /\ out' = Quiet /\ UNCHANGED nextPid
 FeedFrom(a) ==
   /\ cnt.feeds < MaxFeeds
-  /\ \E d \in Alphabet(a) : FeedWith(a, d, TRUE)
+  /\ \E d \in Alphabet(a), fail \in BOOLEAN :
+        /\ FeedWith(a, d, TRUE, fail)
+        /\ fail => out'.res = "callback"          \* only feeds during which the callback really refuses something
   /\ cnt' = [cnt EXCEPT !.feeds = @ + 1,
                         !.created = IF Cardinality(DOMAIN peers') > Cardinality(Pids) THEN @ + 1 ELSE @]
 
 \* Net::accept feeds the canned connect request (with or without token extension) to the fresh connection
-NetAccept(p) ==
+AcceptWith(p, fail) ==
   /\ peers[p].x.st = "Unc"
   /\ LET d == [k |-> "ctrl", c |-> "Connect", tok |-> (IF peers[p].tf THEN "FF" ELSE "no"), rt |-> "-", ack |-> 0, r |-> -1]
-     IN ApplyPeer(p, FeedOp(peers[p].x, d, "T"), FALSE)
-  /\ act' = [a |-> "accept", pid |-> p]
+     IN ApplyPeer(p, FeedOp(peers[p].x, d, "T", FailK(fail)), FALSE)
+  /\ act' = [a |-> "accept", pid |-> p, fail |-> fail]
+NetAccept(p) == \E fail \in BOOLEAN : AcceptWith(p, fail)
 \* Net::reject: a close for a peer that was never accepted (no token is known yet)
 \* `fail`: the send callback reports an error for the close datagram (it is not sent); the peer is gone all the same
-Failed(r, fail) == IF fail THEN [r EXCEPT !.outs = <<>>, !.res = "callback"] ELSE r
 RejectWith(p, rs, fail) ==
   /\ peers[p].x.st = "Unc"
-  /\ ApplyPeer(p, Failed(R(Dead(peers[p].x), <<CtrlT(peers[p].x, "Close", "no", "-", rs)>>, <<>>, "ok"), fail), TRUE)
+  /\ ApplyPeer(p, Ret(Dead(peers[p].x), PutDg(O0, CtrlT(peers[p].x, "Close", "no", "-", rs), FailK(fail)), <<>>, "-"), TRUE)
   /\ act' = [a |-> "reject", pid |-> p, r |-> rs, fail |-> fail]
 NetReject(p) == \E fail \in BOOLEAN : RejectWith(p, 3, fail)
 DisconnectWith(p, rs, fail) ==
   /\ peers[p].x.st \notin {"Unc", "Disc"}
-  /\ ApplyPeer(p, Failed(DisconnectOp(peers[p].x, rs), fail), TRUE)
+  /\ ApplyPeer(p, DisconnectOp(peers[p].x, rs, FailK(fail)), TRUE)
   /\ act' = [a |-> "disconnect", pid |-> p, r |-> rs, fail |-> fail]
 NetDisconnect(p) == \E fail \in BOOLEAN : DisconnectWith(p, 3, fail)
 NetIgnore(p) ==
@@ -129,14 +133,14 @@ NetIgnore(p) ==
   /\ act' = [a |-> "ignore", pid |-> p]
 SendTo(p, v, sz, id) ==
   /\ peers[p].x.st = "Onl"
-  /\ ApplyPeer(p, SendOp(peers[p].x, [id |-> id, sz |-> sz, v |-> v]), FALSE)
+  /\ ApplyPeer(p, SendOp(peers[p].x, [id |-> id, sz |-> sz, v |-> v], 0), FALSE)
   /\ act' = [a |-> "send", pid |-> p, v |-> v, sz |-> sz, id |-> id]
 NetSend(p) ==
   /\ cnt.vit < 2
   /\ \E v \in BOOLEAN, sz \in NSizes : SendTo(p, v, sz, cnt.calls + 1)
 NetFlush(p) ==
   /\ peers[p].x.st = "Onl"
-  /\ ApplyPeer(p, FlushOp(peers[p].x), FALSE)
+  /\ ApplyPeer(p, FlushOp(peers[p].x, 0), FALSE)
   /\ act' = [a |-> "flush", pid |-> p]
 ConnlessTo(a, id, sz) ==
   /\ peers' = peers
@@ -152,7 +156,7 @@ Call ==
 
 \* Net::tick: every peer's connection is ticked
 TickAll ==
-  /\ LET r == [p \in Pids |-> TickOp(peers[p].x)] IN
+  /\ LET r == [p \in Pids |-> TickOp(peers[p].x, 0)] IN
      /\ peers' = [p \in Pids |-> [peers[p] EXCEPT !.x = r[p].x]]
      /\ out' = [Quiet EXCEPT !.sends = [a \in Addrs |-> IF PidOf(a) = -1 THEN <<>> ELSE r[PidOf(a)].outs]]
   /\ act' = [a |-> "tick"]
